@@ -16,8 +16,8 @@ import Uquic.Generated.AckhandlerX
 
 namespace Uquic.Model.Sent
 
-notation "PN" => Int
-notation "Time" => Int
+scoped notation "PN" => Int
+scoped notation "Time" => Int
 /-- (Smallest, Largest) -/
 abbrev Range := PN × PN
 
